@@ -208,7 +208,8 @@ def rule_c(repo, res, m, meth, where):
         res.check(ok, "C21.c", "%s:enter-yield-leave" % name, "%s:SerDes.%s" % (where, name), "context manager %s must be exactly %s; yield; %s" % (name, before, after), by="%s, yield, %s" % (before, after))
     vc = sd.get("verify_complete")
     t = norm(vc) if vc is not None else ""
-    ok = "self._verify_context_is_complete()" in t and "UnclosedNestedContextError" in t and "UnclosedBoundedBlockError" in t
+    raised = set(dotted(r.exc.func) for r in ast.walk(vc) if isinstance(r, ast.Raise) and isinstance(r.exc, ast.Call)) if vc is not None else set()
+    ok = vc is not None and any(isinstance(c, ast.Call) and dotted(c.func) == "self._verify_context_is_complete" for c in ast.walk(vc)) and {"UnclosedNestedContextError", "UnclosedBoundedBlockError"} <= raised
     res.check(ok, "C21.c", "verify_complete:three-checks", "%s:SerDes.verify_complete" % where, "verify_complete must check unused values, unclosed nested contexts and unclosed bounded blocks", by="three checks present")
     # _verify_context_is_complete checks EVERY target of the current context
     vcc = sd.get("_verify_context_is_complete")
@@ -238,7 +239,10 @@ def rule_c(repo, res, m, meth, where):
     res.check(ok, "C21.c", "_verify_context_is_complete:every-target", "%s:SerDes._verify_context_is_complete" % where, "every target of the context must be verified (unused values must make serialisation fail): %s" % det, by="_verify_target_complete(target) on every path of the loop over the context")
     vt = sd.get("_verify_target_complete")
     t = norm(vt) if vt is not None else ""
-    ok = "not in self._cur_context_indices" in t and "UnusedTargetError" in t and "len(value)" in t
+    n_raise = sum(1 for r in ast.walk(vt) if isinstance(r, ast.Raise) and isinstance(r.exc, ast.Call) and dotted(r.exc.func) == "UnusedTargetError") if vt is not None else 0
+    notin = any(isinstance(c, ast.Compare) and isinstance(c.ops[0], ast.NotIn) and norm(c.comparators[0]) == "self._cur_context_indices" for c in ast.walk(vt)) if vt is not None else False
+    lens = any(isinstance(c, ast.Call) and dotted(c.func) == "len" for c in ast.walk(vt)) if vt is not None else False
+    ok = n_raise >= 2 and notin and lens
     res.check(ok, "C21.c", "_verify_target_complete:unused-and-partial", "%s:SerDes._verify_target_complete" % where, "unused targets and partially used lists must raise UnusedTargetError", by="both arms raise")
 
 
